@@ -137,6 +137,30 @@ theorem cone_upper_bounds :
     [Gen.descTransfer, Gen.descMassFunction].all (fun C => withinBounds C coneBounds) = true := by decide +kernel
 theorem cone_upper_bounds_mass_function : withinBounds Gen.descMassFunction coneBoundsMF = true := by decide +kernel
 
+/-! ## "underlying model not re-run": where the expensive component methods are called at all -/
+open Gen in
+/-- parameters that must never re-run the growth model's ODE/integral tabulation (`growth_factor_fn`) -/
+def growthIndep : List Name :=
+  [N.z, N.sigma_8, N.n, N.delta_c, N.hmf_model, N.hmf_params, N.filter_model, N.filter_params, N.Mmin, N.Mmax, N.dlog10m,
+   N.mdef_model, N.mdef_params, N.disable_mass_conversion, N.takahashi, N.transfer_model, N.transfer_params,
+   N.lnk_min, N.lnk_max, N.dlnk]
+/-- the expensive runs of the underlying models, each with the parameters that must not trigger it -/
+def expensiveRuns : List (String × List Name) :=
+  [("transfer.lnt", indepParams), ("growth.growth_factor_fn", growthIndep)]
+
+/-- **model runs sit outside the cones.** Every call site of `transfer.lnt` (the transfer model: CAMB, EH, table read) and of
+    `growth.growth_factor_fn` (the growth tabulation) inside a cached quantity — as listed by the translator from the current
+    source, helper methods included — lies in a quantity whose static cone excludes redshift, σ₈, δ_c, the fit, the filter, the
+    mass grid, … ; together with `real_independence` a change of those parameters never re-runs the model. -/
+theorem model_runs_outside_cones :
+    [Gen.descTransfer, Gen.descMassFunction].all (fun C =>
+      Gen.modelRuns.all (fun r => expensiveRuns.all (fun e =>
+        r.2.2 != e.1 || !(C.mro.contains r.1) || e.2.all (fun p => outside C p r.2.1)))) = true := by decide +kernel
+
+/-- non-vacuity: both expensive methods do have call sites in the regenerated table -/
+example : Gen.modelRuns.any (fun r => r.2.2 == "transfer.lnt") = true ∧
+          Gen.modelRuns.any (fun r => r.2.2 == "growth.growth_factor_fn") = true := by decide +kernel
+
 /-- WDM classes: the same table **minus** `z → _unnormalised_lnT` (known finding: the WDM component
     takes `z`); stated as `_partial`. -/
 theorem independence_table_wdm_partial :
